@@ -151,6 +151,18 @@ PROPS = {
         floors=(300_000, 20_000, 6_000_000, 300_000),
         extra_thorough=[],
     ),
+    "C08": simple(
+        rule="case = (list mixing every network rule shape incl. all modifiers, tags, domain lists, regex kinds, fusable clusters, and cosmetic "
+             "rules: hostnames, entities, negations, #@#, actions, +js with args and permission-needing scriptlets, generic simple/complex/"
+             "misc; debug on/off, optimise on/off, list permission bits in {0,1,3,255}; target engine created with either optimise flag). "
+             "evaluation = battery on E vs E' = deserialize(serialize(E)): network verdict tuple + CSP for 6 rule-derived requests under 3 tag "
+             "sets, per-site cosmetic resources + class/id lookup for 5 pages (script compared as a multiset of lines), and the H4 field-level "
+             "multiset of stored rules under each tag set. non-trivial = the battery produced >= 1 non-default answer on E; distinct = hash of "
+             "(list, flags). Thorough adds the corpus engine round trip over the recorded requests.",
+        assumptions=["resources are re-supplied to the loaded engine (they are not part of the format by design)",
+                     "known defects are attributed only when E' equals a defect-aware twin; see known_findings.json"],
+        floors=(200_000, 8_000, 6_000_000, 250_000),
+    ),
 }
 
 # ---------------------------------------------------------------------------------------------
@@ -216,6 +228,14 @@ MANIFEST_TEXT = {
         "note": "Fresh twin is the same code under test built in one batch; absolute correctness is C01's job. Native allocator (address reuse) is part of the setup.",
         "technique": "runtime monitoring: model-based differential over operation histories + invariant at a regex-cache hook",
         "design_ref": "DESIGN.md §4.6",
+    },
+    "C08": {
+        "text": "Runtime differential twins: every generated engine is serialized, loaded into another engine and both answer the same battery of "
+                "network, CSP, per-site cosmetic and class/id queries under several tag sets; a walker hook additionally compares the stored "
+                "rules field by field so that a dropped field is seen even if no battery request exercises it.",
+        "note": "Two recorded defects (removeparam rules and scriptlet permission masks are not serialized) are recognised by defect-aware twins; anything else alarms.",
+        "technique": "runtime monitoring: round-trip differential twins + field-level comparison through a walker hook",
+        "design_ref": "DESIGN.md §4.8",
     },
 }
 
